@@ -306,6 +306,16 @@ func nonNilSym(s *Sym) bool {
 		return true
 	case KConv:
 		return s2.Name == "makeiface"
+	case KFresh:
+		// results of error constructors are never nil
+		if call, ok := s2.Ref.(*ssa.Call); ok && s2.Name == "ret" {
+			if callee := call.Call.StaticCallee(); callee != nil {
+				switch callee.String() {
+				case "fmt.Errorf", "errors.New", "google.golang.org/grpc/status.Error", "google.golang.org/grpc/status.Errorf":
+					return true
+				}
+			}
+		}
 	}
 	return false
 }
